@@ -342,6 +342,12 @@ def check(ctx, case):
             ref_ok, why = _ref_verdict(raw2, plan, amounts)
         except Exception as e:
             ref_ok, why = False, 'unserialisable: %r' % e
+        k_t = tam['i'] % len(plan['inputs'])
+        spare = len(set(plan['inputs'][k_t]['signers'])) - plan['inputs'][k_t]['m']
+        if tam['op'] in ('drop_sig', 'drop_sig_pad', 'sig_flip', 'sig_outsider', 'sig_other_digest') and spare > 0:
+            # more than m cosigners signed: losing / corrupting one signature can leave m valid ones
+            ctx.klass('tamper.surplus_signatures')
+            return
         if tam['op'] in ('drop_sig', 'drop_sig_pad', 'sig_flip', 'sig_outsider', 'sig_other_digest'):
             # by construction the object's signature list no longer holds m valid signatures by distinct listed
             # keys over this input's digest (the serialised scripts may be stale; verify() judges .signatures)
